@@ -43,7 +43,9 @@ ASSUMPTIONS = [
 PROBES = ["invivo_pipeline_reads_checked", "invivo_restored_items_checked", "resave_then_get", "get_from_disk", "save_crossed_max_rows", "resave_exported_item",
           "restart_clean", "restart_unclean", "multi_bundle", "item_cache_evicted", "bundle_cache_evicted",
           "absent_read", "fault_write_enospc", "fault_write_torn", "fault_read_eio", "fault_reported",
-          "read_after_fault_ok", "restart_after_fault", "dict_restore"]
+          "read_after_fault_ok", "restart_after_fault", "dict_restore", "xprocess_restart"]
+# the same check again, smaller, in interpreters started with assertions stripped (python -O / PYTHONOPTIMIZE=1)
+ENV_VARIANTS = [{"name": "python-O", "env": {"PYTHONOPTIMIZE": "1"}, "runs": {'quick': 900, 'thorough': 9000}}]
 TIERS = {
     "quick": {"runs": 8000, "budget_s": 240, "chunk": 100, "selftest": 96, "per_run_timeout": 180},
     "thorough": {"runs": 0, "budget_s": 1200, "chunk": 600, "selftest": 300, "per_run_timeout": 180},
@@ -165,6 +167,9 @@ def generate(rng, k):
             if rng.random() < 0.7:
                 ops.append({"op": "full_export"})
             op = {"op": "restart", "icap": rng.choice([1, 2, 3]), "bcap": rng.choice([1, 2, 3])}
+            if rng.random() < 0.012:
+                # the same restart, additionally performed by ANOTHER process under another string-hash seed
+                op["xprocess_hashseed"] = rng.randrange(1, 2 ** 31)
         else:
             op = rng.choice([{"op": "contain", "id": rng.randrange(n_ids)}, {"op": "get_all"}])
         # fault placement: inside exports / saves (which may export) / restarts / reads
@@ -500,6 +505,9 @@ def execute(trace):
             if b_bad:
                 # ids the model lost track of may still be marked 'active' in the loader's index and are swept into this bundle
                 M["at_risk"] |= M["active"] | M["ghost"]
+                # a loader whose index restore failed numbers its bundles from 0 again: the file just damaged may be one the
+                # durable index still references for an id the model lost track of
+                M["disk_at_risk"] |= M["ghost"]
             M["resaved_over_export"] -= M["active"]
             M["active"] = set()
             M["index_fresh"] = False
@@ -657,6 +665,12 @@ def execute(trace):
                         seen.append([i, "ok"])
                 if violation:
                     break
+                if op.get("xprocess_hashseed") and not fired and not injected_read:
+                    xv = xprocess_compare(fam, k, run_dir, op, keys, loader, sut)
+                    hit("xprocess_restart")
+                    if xv:
+                        violation = {"step": step, "cls": "xprocess_mismatch", "detail": dict(xv, op=op)}
+                        break
                 M["active"] = set()
                 M["exported"] = set(M["latest"])
                 M["resaved_over_export"] = set()
@@ -694,6 +708,37 @@ def execute(trace):
             "steps": len(trace["ops"]), "log": digest_hex([log, violation]),
             "extra": {f"family:{fam.name}": 1, "feather_writes": diskseam.STATE["total_writes"],
                       "feather_reads": diskseam.STATE["total_reads"], "arrow_conversion_errors": diskseam.STATE["arrow_errors"]}}
+
+
+def xprocess_compare(fam, k, run_dir, op, keys, loader, sut):
+    """the files just restored in this process are read by a fresh interpreter with another PYTHONHASHSEED; both must give
+    the same answer for every id (same files, same code - only the process differs)."""
+    import json as _json
+    import subprocess
+    from sim.core import PYTHON, VERIF_DIR, pinned_env
+    spec = {"family": fam.name, "dir": run_dir, "ids": k["ids"], "icap": op["icap"], "bcap": op["bcap"], "max_rows": k["max_rows"]}
+    spec_path = os.path.join(run_dir, "xproc_spec.json")
+    with open(spec_path, "w") as f:
+        _json.dump(spec, f)
+    try:
+        r = subprocess.run([PYTHON, "-B", os.path.join(VERIF_DIR, "sim", "xproc_restore.py"), spec_path],
+                           env=pinned_env(hashseed=str(op["xprocess_hashseed"])), capture_output=True, text=True, timeout=300)
+        other = _json.loads(r.stdout.strip().splitlines()[-1])
+    except Exception as e:  # noqa
+        return {"error": f"other process failed: {e!r}"}
+    finally:
+        try:
+            os.remove(spec_path)
+        except OSError:
+            pass
+    for i in range(len(keys)):
+        res, out, err = sut(lambda: fam.get(loader, keys[i]))
+        mine = f"ERR:{type(err).__name__}" if err is not None else (None if res is None else cjson(res))
+        theirs = other.get(str(i))
+        if mine != theirs:
+            return {"id": i, "this_process": (mine or "None")[:500], "other_process": (theirs or "None")[:500],
+                    "hashseed_other": op["xprocess_hashseed"]}
+    return None
 
 
 def faults_out(probes):
